@@ -158,6 +158,15 @@ class C11(object):
 
     def gen_stats(self, rng):
         a = self.scalar_case(rng, base='linear')
+        if rng.random() < 0.3 and len(a['outs']) >= 2:
+            # near ties: the mode is the strict maximum however close the runner-up is
+            k = len(a['outs'])
+            base = [Fraction(1, k)] * k
+            eps = Fraction(1, rng.choice([10 ** 6, 10 ** 7, 3 * 10 ** 6]))
+            i, j = rng.sample(range(k), 2)
+            base[i] += eps
+            base[j] -= eps
+            a['pmf'] = [str(p) for p in base]
         return {'kind': 'stats', 'a': a, 'k': rng.randint(0, 4)}
 
     def shrink(self, case):
@@ -235,7 +244,12 @@ class C11(object):
         for x in d.outcomes:
             fullmap.setdefault(tuple(gen.from_py(x, klass)), [0] * mlen)
         mp = {gen.to_py(list(a), klass): gen.to_py(b, klass) for a, b in fullmap.items()}
-        m = dit.insert_rvf(d, lambda o: mp[o], index=case['index'])
+        if mlen >= 2 and case['index'] % 2 == 0:
+            # a list of functions, one per appended variable
+            funcs = [(lambda o, j=j: mp[o][j:j + 1]) for j in range(mlen)]
+            m = dit.insert_rvf(d, funcs, index=case['index'])
+        else:
+            m = dit.insert_rvf(d, lambda o: mp[o], index=case['index'])
         src = {tuple(o): Fraction(p) for o, p in zip(case['outs'], case['pmf'])}
         tab = [[list(k), q(src.get(k, 0))] for k in [tuple(gen.from_py(x, klass)) for x in d.outcomes]]
         mo = drv.call('insertrvf', [tab, [[list(a), b] for a, b in fullmap.items()], None if case['index'] == -1 else case['index']])
@@ -517,9 +531,9 @@ class C11(object):
             want_space = [list(o) for o in itertools.product(*alph)]
             if sorted(map(tuple, oe['space'])) != sorted(map(tuple, want_space)):
                 r.oracle_fail = 'expanded sample space is not the Cartesian product of the alphabets'
-            elif any(abs(look(oe).get(tuple(o), 0.0) - p) > 1e-12 for o, p in look(src).items()):
+            elif any(abs(look(oe).get(tuple(o), 0.0) - p) > 1e-8 for o, p in look(src).items()):
                 r.oracle_fail = 'expansion changed a probability'
-            elif abs(sum(look(oe).values()) - sum(look(src).values())) > 1e-12:
+            elif abs(sum(look(oe).values()) - sum(look(src).values())) > 1e-7:   # entries within the null tolerance may be dropped
                 r.oracle_fail = 'expansion changed the total mass'
 
     def run_example(self, case, drv, r):
